@@ -9,6 +9,15 @@ time-slicings of the expand/search loop (the `time` seen by comb_spec_searcher.c
 search is resumed after every ExceededMaxtimeError until it returns) x seeds of the random proof-tree choice
 (`choice`/`shuffle`/`time` of comb_spec_searcher.tree_searcher are replaced by a seeded random.Random / step clock).
 
+Packs: those of the universe plus LOCAL_PACKS (defined here, shared with c02):
+    rename / rename-late   inferral strategies that rename the statistics (RenameStats: na -> na2, nb -> nb2) before /
+                           after other single-child equivalences, so that equivalence paths compose parameter maps
+                           that are not the identity on names (the renaming first, then further members)
+    onewaycycle            OneWaySwap next to the expansion: the one-way unary rules X -> swap(X) and swap(X) -> X
+                           close a directed cycle (an equivalence class that only connect_cycles finds)
+    restfirst              products with the non-atom factor first / between two atoms (SplitPrefix)
+    localnames             unions whose children drop vanishing statistics, products whose factors use local names
+
 The case machinery of this module (enumerate_cases, run_case, patched, ...) is shared with c02.
 """
 from __future__ import annotations
@@ -28,7 +37,11 @@ import deal
 
 import comb_spec_searcher.comb_spec_searcher as css_mod
 import comb_spec_searcher.tree_searcher as ts_mod
-from comb_spec_searcher import CombinatorialSpecification, CombinatorialSpecificationSearcher
+from comb_spec_searcher import (
+    CombinatorialSpecification,
+    CombinatorialSpecificationSearcher,
+    StrategyPack,
+)
 from comb_spec_searcher.exception import (
     ExceededMaxtimeError,
     InvalidOperationError,
@@ -52,6 +65,52 @@ CONFIGS_PER_COMBO = {"quick": 5, "thorough": 16}
 OPTIONS = ("default", "smallest", "expand_verified")
 MAX_RESUMES = 400
 CASE_TIMEOUT_S = 120  # a case normally takes < 0.1 s; a hang is reported as search-crash
+
+
+def _local(name, initial, inferral, expansion):
+    return StrategyPack(
+        initial_strats=initial,
+        inferral_strats=inferral,
+        expansion_strats=expansion,
+        ver_strats=[U.StatAtomStrategy()],
+        name=name,
+    )
+
+
+LOCAL_PACKS = {
+    "rename": lambda: _local(
+        "rename",
+        [U.RemoveFrontOfPrefix()],
+        [U.RenameStats(), U.RemoveRedundantPatterns(), U.DropZeroStats()],
+        [[U.ExpansionStrategy()]],
+    ),
+    "rename-late": lambda: _local(
+        "rename-late",
+        [U.RemoveFrontOfPrefix()],
+        [U.RemoveRedundantPatterns(), U.RenameStats(), U.MergeDuplicateStats()],
+        [[U.ExpansionStrategy()]],
+    ),
+    "onewaycycle": lambda: _local(
+        "onewaycycle",
+        [U.RemoveFrontOfPrefix()],
+        [],
+        [[U.ExpansionStrategy(), U.OneWaySwap(workable=True)]],
+    ),
+    "restfirst": lambda: _local(
+        "restfirst",
+        [U.SplitPrefix(pieces=2, rest_at=1), U.SplitPrefix(pieces=1, rest_at=0)],
+        [],
+        [[U.ExpansionStrategy()]],
+    ),
+    "localnames": lambda: _local(
+        "localnames",
+        [U.SplitPrefix(pieces=1, rest_at=0, local_names=True)],
+        [],
+        [[U.ExpansionDropVanishing()]],
+    ),
+}
+ALL_PACKS = dict(PACKS)
+ALL_PACKS.update(LOCAL_PACKS)
 
 # --------------------------------------------------------------------------------------------------------------
 # controlled nondeterminism
@@ -216,7 +275,7 @@ def enumerate_cases(tier: str, seed: int, per_combo: Optional[int] = None) -> Li
     ]
     cases = []
     for start in START_CLASSES(tier, seed):
-        for pack_name in PACKS:
+        for pack_name in ALL_PACKS:
             if not pack_applicable(pack_name, start):
                 continue
             for db_name in RULEDBS:
@@ -230,7 +289,7 @@ def enumerate_cases(tier: str, seed: int, per_combo: Optional[int] = None) -> Li
 def search(start, pack_name: str, db_name: str, option: str, schedule: tuple):
     """Run the real searcher to a returned specification (or None), resuming after every ExceededMaxtimeError.
     Must be called inside `patched`.  Returns (spec, searcher, number of resumes)."""
-    pack = PACKS[pack_name]()
+    pack = ALL_PACKS[pack_name]()
     searcher = CombinatorialSpecificationSearcher(
         start,
         pack,
@@ -482,7 +541,7 @@ def run(tier: str, seed: int) -> dict:
     return {
         "bound": (
             f"{n_starts} start classes (alphabets a, b, ab; <= 2 patterns of length <= 3; prefix length <= 2; "
-            f"0-2 statistics) x {len(PACKS)} packs x 3 rule databases, each with {CONFIGS_PER_COMBO[tier]} of "
+            f"0-2 statistics) x {len(ALL_PACKS)} packs (the universe's and the local {sorted(LOCAL_PACKS)}) x 3 rule databases, each with {CONFIGS_PER_COMBO[tier]} of "
             f"{len(OPTIONS) * len(SCHEDULES) * 3} configurations (3 options x {len(SCHEDULES)} clock schedules "
             f"[tick 0.1 ms per reading, trip at reading 1..12, periodic 1/2/3/5 x 0.01/1.0 s] x 3 RNG seeds) drawn by seed {seed}; "
             f"searches resumed after ExceededMaxtimeError up to {MAX_RESUMES} times; sizes n <= {nmax}; all "
